@@ -42,27 +42,29 @@ Proof.
 Qed.
 
 (* ---------------------------------------------------------------- bracket pairs *)
-Lemma bd16_run_ext : forall legacy pc run_index start cis stack pairs,
-  bd16_run d1 legacy pc run_index start cis stack pairs =
-  bd16_run d2 legacy pc run_index start cis stack pairs.
+Lemma bd16_run_ext : forall legacy oc pc run_index start cis stack pairs,
+  bd16_run d1 legacy oc pc run_index start cis stack pairs =
+  bd16_run d2 legacy oc pc run_index start cis stack pairs.
 Proof.
-  intros legacy pc run_index start cis.
+  intros legacy oc pc run_index start cis.
   induction cis as [|[i ch] rest IH]; intros stack pairs; cbn [bd16_run].
   - reflexivity.
   - apply bind_congr; [reflexivity | intro c].
     rewrite (ext_bracket ch).
     destruct (negb (c =c ON)); [apply IH |].
+    apply bind_congr; [reflexivity | intro o].
+    destruct (removed_by_x9 o && negb legacy); [apply IH |].
     destruct (ds_bracket d2 ch) as [[opening is_open]|]; [| apply IH].
     destruct is_open.
     + destruct (bracket_limit <=? length stack); [reflexivity | apply IH].
     + destruct (bracket_match opening stack) as [[[pos ri] below]|]; apply IH.
 Qed.
 
-Lemma bd16_runs_ext : forall e legacy text pc runs run_index stack pairs,
-  bd16_runs e d1 legacy text pc run_index runs stack pairs =
-  bd16_runs e d2 legacy text pc run_index runs stack pairs.
+Lemma bd16_runs_ext : forall e legacy text oc pc runs run_index stack pairs,
+  bd16_runs e d1 legacy text oc pc run_index runs stack pairs =
+  bd16_runs e d2 legacy text oc pc run_index runs stack pairs.
 Proof.
-  intros e legacy text pc runs.
+  intros e legacy text oc pc runs.
   induction runs as [|[s en] rest IH]; intros run_index stack pairs; cbn [bd16_runs].
   - reflexivity.
   - apply bind_congr; [reflexivity | intro sub].
@@ -70,8 +72,8 @@ Proof.
     destruct (stopped && negb legacy); [reflexivity | apply IH].
 Qed.
 
-Lemma identify_bracket_pairs_gen_ext : forall e legacy text sq pc,
-  identify_bracket_pairs_gen e d1 legacy text sq pc = identify_bracket_pairs_gen e d2 legacy text sq pc.
+Lemma identify_bracket_pairs_gen_ext : forall e legacy text sq oc pc,
+  identify_bracket_pairs_gen e d1 legacy text sq oc pc = identify_bracket_pairs_gen e d2 legacy text sq oc pc.
 Proof.
   intros. unfold identify_bracket_pairs_gen.
   apply bind_congr; [apply bd16_runs_ext | intro; reflexivity].
